@@ -5,11 +5,18 @@ C10 — An unknown node or child triggers one presentation request per episode (
 the generated chains (`Lemmas/Exact.lean`: `dispatch_*`, `internal_*`), so dropping it from one
 handler in one version breaks `all_missing_paths_wrapped`.  The marker of an outstanding request is
 the entry `(node, 255, I_PRESENTATION)` of `MessageBuffer.internal_messages`.
+
+The second half lifts the step theorems to histories (`Model/Gateway.lean`): the invariant
+`episode_invariant` links the marker of a node to the log of the gateway's own write attempts
+(the two-state automaton `Episode.track`, proved for every received line by the traversal of
+`Lemmas/Episode.lean`), from which `one_per_episode`, `between_rearms` and `no_request_before_20`
+follow by induction over the operation list.
 -/
-import AioMySensors.Lemmas.Exact
+import AioMySensors.Lemmas.Episode
+import AioMySensors.Properties.C07
 
 namespace AioMySensors.C10
-open AioMySensors M
+open AioMySensors M Episode
 
 /-- A presentation request to `n` is outstanding. -/
 def Marked (st : St) (n : Int) : Prop := st.ibuf.has (presentationRequest n).key = true
@@ -188,5 +195,274 @@ theorem independent (env : Env) (v : Ver) (m : Msg) (w : W) (n' : Int) (hn : n' 
 /-! Non-vacuity: the decorator on a concrete failing handler. -/
 example : Marked (wrapMissingNC (fun m => raise (.lib (.missingNode m.node))) ⟨7, 0, 1, 0, 0, []⟩ { st := {} }).2.st 7 := by
   unfold Marked; decide
+
+/-! ## Histories -/
+
+theorem marked_iff (st : St) (n : Int) : Marked st n ↔ markedB st n = true := Iff.rfl
+
+/-- The reachable-state invariant the history theorems start from: the sleep buffer holds set
+commands under their own keys without duplicates (C07), the marker table has no duplicate keys. -/
+def Inv (st : St) : Prop := C07.SbufInv st ∧ IbufWF st
+
+theorem inv_init : Inv {} := ⟨C07.sbufInv_init, ibufWF_init⟩
+
+theorem stepOp_recv_st (st : St) (env : Env) (line : Str) (f : List Bool) :
+    (stepOp st (.recv env line f)).1 = (recv env line { st := st, faults := f }).2.st := by
+  simp only [stepOp]; split <;> simp_all
+
+theorem stepOp_recv_writes (st : St) (env : Env) (line : Str) (f : List Bool) :
+    (stepOp st (.recv env line f)).2.writes = (recv env line { st := st, faults := f }).2.writes := by
+  simp only [stepOp]; split <;> simp_all
+
+theorem stepOp_send_st (st : St) (obj : Option Msg) (b : Bool) (f : List Bool) :
+    (stepOp st (.send obj b f)).1 = (apiSend obj b { st := st, faults := f }).2.st := by
+  simp only [stepOp]; split <;> simp_all
+
+theorem inv_step (st : St) (op : Op) (h : Inv st) : Inv (stepOp st op).1 := by
+  cases op with
+  | recv env line f =>
+    rw [stepOp_recv_st]
+    exact ⟨C07.sbufInv_recv env line _ h.1, ibufWF_recv env line _ h.2⟩
+  | send obj b f =>
+    rw [stepOp_send_st]
+    exact ⟨C07.sbufInv_send obj b _ h.1, ibufWF_send obj b _ h.2⟩
+
+theorem run_cons_obs (st : St) (op : Op) (ops : List Op) :
+    (run st (op :: ops)).2 = (stepOp st op).2 :: (run (stepOp st op).1 ops).2 := by simp [run]
+
+theorem stateAfter_cons (st : St) (op : Op) (ops : List Op) :
+    stateAfter st (op :: ops) = stateAfter (stepOp st op).1 ops := by simp [stateAfter, run]
+
+theorem stateAfter_nil (st : St) : stateAfter st [] = st := rfl
+
+theorem inv_history (ops : List Op) (st : St) (h : Inv st) : Inv (stateAfter st ops) := by
+  induction ops generalizing st with
+  | nil => exact h
+  | cons op ops ih => rw [stateAfter_cons]; exact ih _ (inv_step st op h)
+
+theorem stateAfter_append (st : St) (a b : List Op) : stateAfter st (a ++ b) = stateAfter (stateAfter st a) b := by
+  induction a generalizing st with
+  | nil => rfl
+  | cons op a ih => simp only [List.cons_append, stateAfter_cons]; exact ih _
+
+theorem run_append_obs (st : St) (a b : List Op) :
+    (run st (a ++ b)).2 = (run st a).2 ++ (run (stateAfter st a) b).2 := by
+  induction a generalizing st with
+  | nil => simp [run, stateAfter]
+  | cons op a ih => simp only [List.cons_append, run_cons_obs, stateAfter_cons, ih]
+
+theorem run_obs_length (st : St) (ops : List Op) : (run st ops).2.length = ops.length := by
+  induction ops generalizing st with
+  | nil => simp [run]
+  | cons op ops ih => simp [run_cons_obs, ih]
+
+/-- The observations of the stretch `seg` inside the history `pre ++ seg ++ post`. -/
+def segObs (st : St) (pre seg post : List Op) : List Obs :=
+  ((run st (pre ++ seg ++ post)).2.drop pre.length).take seg.length
+
+theorem segObs_eq (st : St) (pre seg post : List Op) : segObs st pre seg post = (run (stateAfter st pre) seg).2 := by
+  simp only [segObs, List.append_assoc, run_append_obs]
+  rw [List.drop_left' (run_obs_length st pre), List.take_left' (run_obs_length _ seg)]
+
+def isRecv : Op → Bool
+  | .recv .. => true
+  | .send .. => false
+
+/-- **The write attempts the gateway made on its own**: those of the `recv` steps, in order.
+(What the application hands to `Gateway.send` — possibly a presentation request of its own — is
+written by the outgoing handler without touching the markers, and is not counted: the property
+speaks of the requests the controller writes in reaction to received messages.) -/
+def ownWrites : List Op → List Obs → List WriteEvt
+  | op :: ops, o :: os => (if isRecv op then o.writes else []) ++ ownWrites ops os
+  | _, _ => []
+
+/-- Is this operation, applied in state `st`, a re-arming event for node `n`: a received node
+presentation (`n;255;0;…`) handled by protocol 2.0 or newer?  That is the only thing that removes
+the marker of `n` (`protocol_20.handle_presentation`); before 2.0 a presentation does not. -/
+def rearms (n : Int) (st : St) : Op → Bool
+  | .recv _ line _ => rearmsLine n st line
+  | .send .. => false
+
+/-- No operation of the history, each taken in the state it is applied in, re-arms `n`. -/
+def NoRearm (n : Int) : St → List Op → Prop
+  | _, [] => True
+  | st, op :: ops => rearms n st op = false ∧ NoRearm n (stepOp st op).1 ops
+
+/-- `Gateway.send` never touches the marker table. -/
+theorem send_keeps_markers (obj : Option Msg) (b : Bool) (w : W) : (apiSend obj b w).2.st.ibuf = w.st.ibuf :=
+  (rel_apiSend (R := OnSt fun s s' => s'.ibuf = s.ibuf) (OnSt.preO (fun _ => rfl) (fun h1 h2 => h2.trans h1))
+    (fun _ => Rel.transportWrite (S := fun s s' => s'.ibuf = s.ibuf) (fun _ => rfl) _)
+    (fun _ _ => Rel.modifySt (S := fun s s' => s'.ibuf = s.ibuf) _ fun _ => rfl) obj b).step w
+
+/-- A presentation request the APPLICATION sends is handed to the transport as it is (outgoing
+internal handler), whatever the markers say, and — `send_keeps_markers` — without recording one. -/
+theorem user_request_written_directly (n : Int) (b : Bool) (w : W) :
+    apiSend (some (presentationRequest n)) b w = transportWrite (reqLine n) w := by
+  show gwSend _ b w = _
+  rw [gwSend_direct _ _ (Or.inr (Or.inr (Or.inl (presentationRequest_cmd n))))]; rfl
+
+/-- One operation that does not re-arm `n`: the gateway's own writes of this step and the marker
+of `n` move as the episode automaton says. -/
+theorem step_track (n : Int) (st : St) (op : Op) (hs : C07.SbufInv st) (h : rearms n st op = false) :
+    track n (markedB st n) (if isRecv op then (stepOp st op).2.writes else []) = some (markedB (stepOp st op).1 n) := by
+  cases op with
+  | recv env line f =>
+    obtain ⟨_, l, hl, hp⟩ := epi_recv n env line { st := st, faults := f } h hs.2
+    simp only [isRecv, if_true, stepOp_recv_st, stepOp_recv_writes, hl, List.nil_append]
+    exact hp
+  | send obj b f =>
+    simp only [isRecv, Bool.false_eq_true, if_false, track, stepOp_send_st, markedB, send_keeps_markers]
+
+/-- **The invariant linking the marker to the write log.** Along any stretch of operations none of
+which re-arms `n` — received lines of any kind under any protocol, any write-fault schedules,
+`send` calls — the gateway's own write attempts and the marker of `n` form a legal run of the
+episode automaton: a request for `n` is attempted only while none is outstanding, and one is
+outstanding afterwards iff one was outstanding before or a request for `n` has been written
+successfully. -/
+theorem episode_invariant (n : Int) (ops : List Op) (st : St) (h : Inv st) (hno : NoRearm n st ops) :
+    track n (markedB st n) (ownWrites ops (run st ops).2) = some (markedB (stateAfter st ops) n) := by
+  induction ops generalizing st with
+  | nil => simp [ownWrites, track, stateAfter_nil]
+  | cons op ops ih =>
+    rw [run_cons_obs, stateAfter_cons]
+    simp only [ownWrites]
+    rw [track_append, step_track n st op h.1 hno.1]
+    exact ih _ (inv_step st op h) hno.2
+
+/-- **One presentation request per episode.** Take any history `pre ++ seg ++ post` from a state
+satisfying the invariant (the initial state does), under any protocols, with any write-fault
+schedules and `send` calls, and any node `n`.  If no operation of the stretch `seg` re-arms `n`,
+then among the gateway's own write attempts in `seg`:
+* at most one request for `n` is written successfully;
+* once one has been written successfully, no further request for `n` is even attempted in `seg`,
+  and none had succeeded before it (failed attempts before it may have been repeated);
+* if a request was already outstanding when `seg` began, none is attempted at all;
+* a request is outstanding after `seg` iff one was outstanding before or one was written
+  successfully in `seg`. -/
+theorem one_per_episode (n : Int) (st0 : St) (h0 : Inv st0) (pre seg post : List Op)
+    (hno : NoRearm n (stateAfter st0 pre) seg) :
+    reqSuccesses n (ownWrites seg (segObs st0 pre seg post)) ≤ 1 ∧
+    (∀ l1 e l2, ownWrites seg (segObs st0 pre seg post) = l1 ++ e :: l2 → isReq n e = true → e.ok = true →
+      reqAttempts n l2 = 0 ∧ reqSuccesses n l1 = 0) ∧
+    (Marked (stateAfter st0 pre) n → reqAttempts n (ownWrites seg (segObs st0 pre seg post)) = 0) ∧
+    (Marked (stateAfter st0 (pre ++ seg)) n ↔
+      Marked (stateAfter st0 pre) n ∨ reqSuccesses n (ownWrites seg (segObs st0 pre seg post)) = 1) := by
+  have hinv := episode_invariant n seg (stateAfter st0 pre) (inv_history pre st0 h0) hno
+  rw [← segObs_eq st0 pre seg post, ← stateAfter_append] at hinv
+  obtain ⟨a1, a2, a3⟩ := track_spec n _ _ _ hinv
+  refine ⟨a1, fun l1 e l2 hw he hok => ?_, a2, a3⟩
+  rw [hw] at hinv
+  obtain ⟨b1, b2, _, _⟩ := track_after_success n _ _ l1 l2 e hinv he hok
+  exact ⟨b1, b2⟩
+
+/-- **The re-arming event.** A node presentation of `n` handled by protocol 2.0 or newer leaves no
+request to `n` outstanding, and that step itself writes no presentation-request line (to anyone). -/
+theorem rearm_step (n : Int) (st : St) (op : Op) (h : Inv st) (hr : rearms n st op = true) :
+    ¬ Marked (stepOp st op).1 n ∧ ∀ e ∈ (stepOp st op).2.writes, ∀ n', e.line ≠ reqLine n' := by
+  cases op with
+  | send obj b f => simp [rearms] at hr
+  | recv env line f =>
+    simp only [rearms, rearmsLine] at hr
+    split at hr
+    · next m hd =>
+      simp only [Bool.and_eq_true, beq_iff_eq, decide_eq_true_eq] at hr
+      obtain ⟨⟨⟨hcmd, hc⟩, hn⟩, hv⟩ := hr
+      obtain ⟨hm, _, l, hl, hno⟩ := rearm_recv env line { st := st, faults := f } m hd hcmd hc hv h.2 h.1.2
+      rw [stepOp_recv_st, stepOp_recv_writes, hl, ← hn]
+      exact ⟨by rw [marked_iff, hm]; simp, by simpa using hno⟩
+    · exact absurd hr (by simp)
+
+/-- **Between two consecutive re-arming events.** In a history `pre ++ r :: seg ++ post` where `r`
+re-arms `n` and nothing in `seg` does (so `seg` is an episode of `n`: it ends where the history
+ends or where the next re-arming event, the head of `post`, occurs): the re-arming step writes no
+request; in the episode at most one request for `n` is written successfully, after which none is
+attempted; and a request is outstanding at the end of the episode iff one was written successfully
+in it. -/
+theorem between_rearms (n : Int) (st0 : St) (h0 : Inv st0) (pre : List Op) (r : Op) (seg post : List Op)
+    (hr : rearms n (stateAfter st0 pre) r = true) (hno : NoRearm n (stateAfter st0 (pre ++ [r])) seg) :
+    (∀ e ∈ (stepOp (stateAfter st0 pre) r).2.writes, ∀ n', e.line ≠ reqLine n') ∧
+    reqSuccesses n (ownWrites seg (segObs st0 (pre ++ [r]) seg post)) ≤ 1 ∧
+    (∀ l1 e l2, ownWrites seg (segObs st0 (pre ++ [r]) seg post) = l1 ++ e :: l2 → isReq n e = true → e.ok = true →
+      reqAttempts n l2 = 0 ∧ reqSuccesses n l1 = 0) ∧
+    (Marked (stateAfter st0 (pre ++ [r] ++ seg)) n ↔
+      reqSuccesses n (ownWrites seg (segObs st0 (pre ++ [r]) seg post)) = 1) := by
+  obtain ⟨hu, hw⟩ := rearm_step n _ r (inv_history pre st0 h0) hr
+  obtain ⟨a1, a2, _, a4⟩ := one_per_episode n st0 h0 (pre ++ [r]) seg post hno
+  refine ⟨hw, a1, a2, ?_⟩
+  rw [a4]
+  have : ¬ Marked (stateAfter st0 (pre ++ [r])) n := by
+    rw [stateAfter_append, stateAfter_cons, stateAfter_nil]; exact hu
+  simp [this]
+
+/-! ### Before 2.0 -/
+
+/-- The active protocol is 1.4 or 1.5. -/
+def Old (st : St) : Prop := st.proto = .v14 ∨ st.proto = .v15
+
+/-- Every operation of the history is applied in a state whose active protocol is 1.4 or 1.5. -/
+def OldAlong : St → List Op → Prop
+  | _, [] => True
+  | st, op :: ops => Old st ∧ OldAlong (stepOp st op).1 ops
+
+theorem old_lt (st : St) (h : Old st) : ¬ Ver.v20 ≤ st.proto := by
+  rcases h with h | h <;> rw [h] <;> decide
+
+theorem old_step (st : St) (op : Op) (hs : C07.SbufInv st) (hold : Old st) :
+    (∀ e ∈ (if isRecv op then (stepOp st op).2.writes else []), ∀ n, e.line ≠ reqLine n) ∧
+    ∀ n, markedB (stepOp st op).1 n = markedB st n := by
+  cases op with
+  | recv env line f =>
+    obtain ⟨_, l, hl, hq, hno⟩ := quiet_recv_old env line { st := st, faults := f } (old_lt st hold) hs.2
+    simp only [isRecv, if_true, stepOp_recv_st, stepOp_recv_writes, hl, List.nil_append]
+    exact ⟨hno, hq⟩
+  | send obj b f => simp [isRecv, stepOp_send_st, markedB, send_keeps_markers]
+
+/-- **No presentation request before 2.0.** Formalisation chosen: every operation of the history
+is applied in a state whose active protocol is 1.4 or 1.5 (`OldAlong`; the step in which a version
+report switches to 2.x is still covered, the steps after it are not).  Then no write attempt the
+gateway makes on its own is a presentation-request line — to any node, under any fault schedule —
+and no marker is created or removed. -/
+theorem no_request_before_20 (ops : List Op) (st : St) (h : Inv st) (hold : OldAlong st ops) :
+    (∀ e ∈ ownWrites ops (run st ops).2, ∀ n, e.line ≠ reqLine n) ∧
+    ∀ n, (Marked (stateAfter st ops) n ↔ Marked st n) := by
+  induction ops generalizing st with
+  | nil => simp [ownWrites, stateAfter_nil]
+  | cons op ops ih =>
+    obtain ⟨s1, s2⟩ := old_step st op h.1 hold.1
+    obtain ⟨i1, i2⟩ := ih _ (inv_step st op h) hold.2
+    rw [run_cons_obs, stateAfter_cons]
+    refine ⟨fun e he => ?_, fun n => ?_⟩
+    · simp only [ownWrites, List.mem_append] at he
+      rcases he with he | he
+      · exact s1 e he
+      · exact i1 e he
+    · rw [i2 n, marked_iff, marked_iff, s2 n]
+
+/-- In particular no step's observation contains a request line, whatever the node. -/
+theorem no_request_before_20_counts (ops : List Op) (st : St) (h : Inv st) (hold : OldAlong st ops) (n : Int) :
+    reqAttempts n (ownWrites ops (run st ops).2) = 0 := by
+  simp only [reqAttempts, List.countP_eq_zero, isReq, beq_iff_eq]
+  exact fun e he => (no_request_before_20 ops st h hold).1 e he n
+
+/-- The request line in the property's words. -/
+theorem reqLine_eq (n : Int) : reqLine n = dec n ++ ";255;3;0;19;\n".toList := request_line n
+
+/-! Non-vacuity: the hypotheses are met by concrete histories from the initial state. -/
+
+example : Inv {} := inv_init
+
+/-- a battery report from node 7, then a user `send`: nothing here re-arms node 7 -/
+example : NoRearm 7 {} [.recv {} "7;255;3;0;0;55\n".toList [true], .send none false []] :=
+  ⟨by decide, rfl, trivial⟩
+
+/-- a node presentation of 7 under protocol 2.2 re-arms 7 -/
+example : rearms 7 { proto := .v22 } (.recv {} "7;255;0;0;17;2.3.2\n".toList []) = true := by decide
+
+example : OldAlong {} [.send none false [], .send none true []] := ⟨Or.inl rfl, Or.inl rfl, trivial⟩
+
+example : reqSuccesses 7 [⟨reqLine 7, false⟩, ⟨reqLine 8, true⟩, ⟨reqLine 7, true⟩] = 1 ∧
+    track 7 false [⟨reqLine 7, false⟩, ⟨reqLine 8, true⟩, ⟨reqLine 7, true⟩] = some true := by
+  have h87 : (reqLine 8 == reqLine 7) = false := by simpa using fun h => absurd (reqLine_inj h) (by decide)
+  simp [reqSuccesses, track, isReq, h87]
 
 end AioMySensors.C10
